@@ -7,7 +7,7 @@ META = {
     "technique": "Coq proofs by structural induction over a program language (stack machine vs lexical denotation of the QueuingManager/AnnotatedQueue) + vm_compute correspondence against the real pennylane queuing",
     "design_ref": "DESIGN.md §3 C41",
     "text": "Kernel-checked theorems (Props/C41.v) for ALL structured programs (new / wrapper constructors / qp.apply / with AnnotatedQueue / stop_recording / try / raise): the queues produced by the stack machine transcribing core/queuing.py equal the lexical denotation (events go to the innermost enclosing With, none under Stop); nothing is recorded in existing contexts under stop_recording; an inner With never touches outer queues; the context stack is restored after every program, exceptions included; every queue is in creation order; operands consumed by a wrapper are absent and the wrapper is last. The model is evaluated inside Coq on the same generated programs that are run on the real AnnotatedQueue / QueuingManager.stop_recording / qp.adjoint / qp.ctrl / qp.pow / @ / scalar * / qp.expval / qp.apply, and every final queue (by object identity), the object count, the raised flag and the restored stack are compared.",
-    "note": "Trusted: Coq kernel; the hand transcription of queuing.py and of the queue() methods / wrapper constructors (which operands are removed, in which order; copy semantics of qp.apply for new-style vs old-style operators; ctrl/prod/s_prod flattening; custom ctrl dispatch of RX giving a fresh base) is tied to /repo only by the correspondence run. Single thread only: the RLock in AnnotatedQueue.__enter__/__exit__ and multi-threaded recording are not modelled. Program capture (capture.enabled()) is off. Only the wrapper entry points listed above with lazy defaults (adjoint, pow lazy; @ and scalar* eager) are exercised; queue metadata (kwargs) is not modelled. The stack is modelled with its top at the head of a list.",
+    "note": "Trusted: Coq kernel; the hand transcription of queuing.py and of the queue() methods / wrapper constructors (which operands are removed, in which order; copy semantics of qp.apply for new-style vs old-style operators; ctrl/prod/s_prod flattening; custom ctrl dispatch of RX giving a fresh base) is tied to /repo only by the correspondence run. Single thread only: the RLock in AnnotatedQueue.__enter__/__exit__ and multi-threaded recording are not modelled. Program capture (capture.enabled()) is off. The tidy 'created there, in program order, minus consumed there' reading (record_of) is checked by vm_compute on every generated case and by the python direct oracle, but is not proved for all programs (the general theorems are: machine = lexical event denotation, frame/isolation, stack restoration, creation-order invariant, per-constructor membership). Only the wrapper entry points listed above with lazy defaults (adjoint, pow lazy; @ and scalar* eager) are exercised; queue metadata (kwargs) is not modelled. The stack is modelled with its top at the head of a list.",
     "assumptions": ["single-threaded recording (RLock not modelled)",
                     "program capture disabled",
                     "objects are referred to by creation number; ill-typed statements (operator wrapper applied to a measurement, no object yet) are skipped by convention in model and driver"],
@@ -248,7 +248,12 @@ def gen_body(rng, depth, size, nobj_hint):
         elif r < 0.95 and depth > 0:
             body.append(["try", gen_body(rng, depth - 1, size, nobj_hint)])
         elif r < 0.98:
-            body.append(["raise"])
+            if depth > 0 and rng.random() < 0.65:   # mostly caught nearby so that the program goes on
+                wrapk = rng.choice(["with", "stop", "try"])
+                inner = gen_body(rng, depth - 1, 3, nobj_hint) + [["raise"]] + gen_body(rng, 0, 2, nobj_hint)
+                body.append(["try", [[wrapk, inner]]])
+            else:
+                body.append(["raise"])
         else:
             body.append(["new", 0])
     return body
